@@ -88,6 +88,8 @@ pub struct Runner {
     pub ext: crate::oracles::OracleState,
     pub in_second_chance: bool,
     pub ext_c06_compared: u64,
+    /// Set while an interrupted request is being submitted again.
+    pub resuming: bool,
 }
 
 pub fn load_csrs() -> Vec<Bytes> {
@@ -125,6 +127,7 @@ impl Runner {
             ext: Default::default(),
             in_second_chance: false,
             ext_c06_compared: 0,
+            resuming: false,
         }
     }
 
@@ -285,6 +288,12 @@ impl Runner {
                 "CRASH".to_string()
             }
             Guarded::Fatal(msg) => {
+                if hooks::state().fault.fired_at.is_some() {
+                    // Stopping the daemon on an I/O error is deliberate;
+                    // it counts as a crash at that point.
+                    self.dead = Some("crash".into());
+                    return format!("EXIT-AFTER-FAULT {msg}")
+                }
                 self.violation(
                     "C04", "daemon_exit",
                     format!("{}: daemon would exit: {msg}", op.kind())
@@ -487,6 +496,10 @@ impl Runner {
                 "CRASH".into()
             }
             Guarded::Fatal(msg) => {
+                if hooks::state().fault.fired_at.is_some() {
+                    self.dead = Some("crash".into());
+                    return format!("EXIT-AFTER-FAULT {msg}")
+                }
                 self.violation(
                     "C04", "daemon_exit",
                     format!("scheduler: daemon would exit: {msg}")
@@ -549,8 +562,33 @@ impl Runner {
         &mut self, inst: usize, name: &str, pinst: usize, parent: &str,
         res: Res,
     ) -> String {
-        if self.model.ca(inst, name).is_some() {
+        if let Some(ca) = self.model.ca(inst, name) {
+            if !self.resuming {
+                return "skip:exists".into()
+            }
+            // Re-submission of an interrupted request: do what is left.
+            let (has_repo, has_parent) = (ca.has_repo, !ca.parents.is_empty());
+            if !has_repo {
+                match self.world.setup_repo(inst, name, 0) {
+                    Ok(()) => {
+                        let ca = self.model.ca_mut(inst, name).unwrap();
+                        ca.has_repo = true;
+                        ca.repo_inst = 0;
+                    }
+                    Err(err) => {
+                        return format!(
+                            "err:repo:{}", err.split(':').next().unwrap_or("")
+                        )
+                    }
+                }
+            }
+            if !has_parent {
+                return self.exec_add_parent(inst, name, pinst, parent, res)
+            }
             return "skip:exists".into()
+        }
+        if self.ext.deleted_cas.contains(name) {
+            return "skip:retired_name".into()
         }
         if let Err(err) = self.world.create_ca(inst, name) {
             return format!("err:create:{}", err.split(':').next().unwrap_or(""))
@@ -604,8 +642,11 @@ impl Runner {
             } else { "" }
         );
         let already_child = self.model.child_at(pinst, parent, name).is_some();
+        // A child that the parent already knows while the model does not
+        // is a re-submission after an interruption: finish the job.
+        let resume = !already_child && self.resuming;
         let result = self.world.add_child(
-            pinst, parent, inst, name, name, parent, &res.to_set()
+            pinst, parent, inst, name, name, parent, &res.to_set(), resume
         );
         if already_child && parent == "ta" {
             // TA proxy: duplicate child is refused.
